@@ -297,7 +297,7 @@ theorem resize_eq (e : Emu) (w h : Int) :
       (if w < 0 ∨ h < 0 then .error .oob
        else do
         let e1 ← reflow Fixes.current e.cur.row e.primary 0 (resizeInit e w h)
-        .ok { e1 with altActive := e1.mode.smcup }) := rfl
+        .ok { e1 with cur := { e1.cur with st := e.cur.st }, altActive := e1.mode.smcup }) := rfl
 
 theorem clampSaved_ok {s : Saved} {w h : Int} (hw : 1 ≤ w) (hh : 1 ≤ h)
     (hr : 0 ≤ s.cur.row) (hc : 0 ≤ s.cur.col) : SavedOk (clampSaved s w h) h.toNat w.toNat := by
@@ -342,7 +342,7 @@ theorem resize_safe_gen {e : Emu} (p : ResizePre e) (w h : Int)
   have hneg : ¬ (w < 0 ∨ h < 0) := by omega
   obtain ⟨e1, he1, hi1⟩ := reflow_safe d e.cur.row e.primary 0 _ (resizeInit_inv p hw1 hh1)
   rw [resize_eq, if_neg hneg, he1, exceptOk_bind]
-  exact ⟨_, rfl, inv_altActive' hi1 _⟩
+  exact ⟨_, rfl, { hi1 with }⟩
 
 theorem resizePre_of_inv {e : Emu} {rows cols : Nat} (h : EmuInv e rows cols) : ResizePre e :=
   ⟨h.left0, h.savedP.rowLo, h.savedP.colLo, h.savedA.rowLo, h.savedA.colLo, h.tabs⟩
